@@ -2146,7 +2146,7 @@ func (c *Ctx) r0918(pk *packages.Package) {
 
 // R09.20: no string literal is printed with a live `</script`.
 func (c *Ctx) r0920(pk *packages.Package, rule string) {
-	c.R.Rule(rule, "inside an HTML script element the text `</script` — in any case, followed by white space, `/` or `>` — ends the element, so a JavaScript string must never be printed with it. Authors write `<\\/script>` or `\\x3C/script>`; js.replaceEscapes, which strips unnecessary escapes and decodes `\\x..` / `\\u....`, has to leave those alone and to add the backslash where it is missing. In replaceEscapes (and the helpers it calls) (a) the end tag is recognised by a case-folding comparison of the six letters `script` (bytes.EqualFold / parse.EqualFold), not by comparing with a longer fixed string such as `/script>` — `<\\/script >` and `<\\/SCRIPT>` lost their backslash; (b) the branches that decode a `\\x`, a `\\u` and a legacy octal escape each consult that recogniser, so that an escape that would produce the `<` of `</script` stays an escape; (d) what the decoding branches consult also recognises `!--`: after `<!--` a `<script` makes the HTML tokenizer skip the next `</script>`; (e) minifyString, which chooses the quotes before replaceEscapes runs, clears its template-literal flag under a test that consults the recogniser — an octal escape that is kept may not end up in a template literal; (c) minifyRegExp, which strips unnecessary backslashes from regular expression literals, consults it too (`[<\\/script>]`)")
+	c.R.Rule(rule, "inside an HTML script element the text `</script` — in any case, followed by white space, `/` or `>` — ends the element, so a JavaScript string must never be printed with it. Authors write `<\\/script>` or `\\x3C/script>`; js.replaceEscapes, which strips unnecessary escapes and decodes `\\x..` / `\\u....`, has to leave those alone and to add the backslash where it is missing. In replaceEscapes (and the helpers it calls) (a) the end tag is recognised by a case-folding comparison of the six letters `script` (bytes.EqualFold / parse.EqualFold) in a function that also looks at the `/`, not by comparing with a longer fixed string such as `/script>` — `<\\/script >` and `<\\/SCRIPT>` lost their backslash; (b) the branches that decode a `\\x`, a `\\u` and a legacy octal escape each consult that recogniser, so that an escape that would produce the `<` of `</script` stays an escape; (d) what the decoding branches consult also recognises `!--`: after `<!--` a `<script` makes the HTML tokenizer skip the next `</script>`; (e) minifyString, which chooses the quotes before replaceEscapes runs, clears its template-literal flag under a test that consults the recogniser — an octal escape that is kept may not end up in a template literal; (c) minifyRegExp, which strips unnecessary backslashes from regular expression literals, consults it too (`[<\\/script>]`)")
 	info := pk.TypesInfo
 	fd := c.fn(rule, pk, "replaceEscapes")
 	if fd == nil {
@@ -2173,7 +2173,11 @@ func (c *Ctx) r0920(pk *packages.Package, rule string) {
 				for _, a := range ce.Args {
 					if conv, ok := ast.Unparen(a).(*ast.CallExpr); ok && len(conv.Args) == 1 {
 						if tv, ok := info.Types[conv.Args[0]]; ok && tv.Value != nil && strings.EqualFold(constant.StringVal(tv.Value), "script") {
-							hit = true
+							// the recogniser of the END tag: the function that folds the name also looks at the `/` (a
+							// search for `<script`, the start tag, folds the name as well)
+							if chars, _, _ := c.constsIn(pk, d.Body); chars['/'] {
+								hit = true
+							}
 						}
 					}
 				}
